@@ -44,15 +44,19 @@ func HashNameToFwThread(name enc.Name) int {
 // The return value is a boolean map of which threads match the name
 func HashNameToAllPrefixFwThreads(name enc.Name) []bool {
 	threads := make([]bool, len(Threads))
+	prefixHash := name.PrefixHash()
 
-	// Dispatch all management requests to thread 0
+	// Dispatch all management requests to thread 0 (and to the thread of the zero-length
+	// prefix, which holds Interests with an empty name)
 	if len(name) > 0 && bytes.Equal((name)[0].Val, LOCALHOST) {
 		threads[0] = true
+		threads[int(prefixHash[0]%uint64(len(Threads)))] = true
 		return threads
 	}
 
-	prefixHash := name.PrefixHash()
-	for i := 1; i < len(prefixHash); i++ {
+	// Every prefix, including the zero-length one: an Interest with CanBePrefix
+	// and an empty name is hashed to the thread of that prefix
+	for i := 0; i < len(prefixHash); i++ {
 		thread := int(prefixHash[i] % uint64(len(Threads)))
 		threads[thread] = true
 	}
